@@ -1159,4 +1159,8 @@ func litestream.(*VFSFile).buildIndexMap(f, ctx, infos) (index, err)
   loop 2 invariant (forall p int :: {has(index, p)} has(index, p) && visited(0)[p] ==> p <= commit)
   loop 2 invariant (forall i int, p int :: {inIdx(infos[i], p)} 0 <= i && i < len(infos) && inIdx(infos[i], p) && p <= commit ==> has(index, p))
   loop 2 invariant (forall p int :: {has(index, p)} has(index, p) ==> (exists i int :: {infos[i]} 0 <= i && i < len(infos) && inIdx(infos[i], p)))
+
+// C03: start-up cleanup removes only staged (".tmp") files, never a published file.
+func litestream.removeTmpFiles$1(path, info, err) (res)
+  at os.Remove#all assert [C03.cleanup-only-tmp] $arg0 == path && hasSuffix(path, ".tmp") && err == nil
 */
